@@ -28,7 +28,7 @@ impl Check for C05 {
             max_latency_us: 1_000_000,
             ..GenParams::default()
         };
-        scenario_strategy(&p)
+        prop_oneof![5 => scenario_strategy(&p), 1 => bulk_scenario_strategy(tier.pick(150, 300), tier.pick(40, 120), false, true)].boxed()
     }
 
     fn cases(&self, tier: Tier) -> u64 {
@@ -44,7 +44,7 @@ impl Check for C05 {
     }
 
     fn rule(&self) -> String {
-        "case = SimPair scenario with FIFO loss-free links (constant latency 0..1 s per direction), traffic in both directions, all four modes, bursts exceeding the flush budget, the packet / frame windows (2^k) and the receive allocation, arbitrary cadence, base ids anywhere; followed by a fair phase to quiescence. Oracle: the delivered sequence at each end equals the opposite end's submission sequence with some TimeSensitive packets removed (same global order across channels, nothing else missing, nothing twice). Non-trivial = some tick submitted more than one packet or a multi-fragment packet, and at least 5 packets were delivered. Distinct = distinct serialised scenario.".into()
+        "case = SimPair scenario with FIFO loss-free links (constant latency 0..1 s per direction), traffic in both directions, all four modes, bursts exceeding the flush budget, the packet / frame windows (2^k) and the receive allocation, arbitrary cadence, base ids anywhere, plus a bulk shape (4096 windows, streams of hundreds of tiny packets per tick with rare Reliable ones); followed by a fair phase to quiescence. Oracle: the delivered sequence at each end equals the opposite end's submission sequence with some TimeSensitive packets removed (same global order across channels, nothing else missing, nothing twice). Non-trivial = some tick submitted more than one packet or a multi-fragment packet, and at least 5 packets were delivered. Distinct = distinct serialised scenario.".into()
     }
 
     fn assumptions(&self) -> Vec<String> {
